@@ -59,7 +59,7 @@ Definition judge_rel (rec : list Z) : Z :=
         let isr := negb (isrow =? 0) in
         let back := if isr then submat M' (keep_line m' k) (iota 0 n') else submat M' (iota 0 m') (keep_line n' k) in
         if negb ((if isr then Nat.eqb m' (S m) && Nat.eqb n' n && Nat.ltb k m' else Nat.eqb m' m && Nat.eqb n' (S n) && Nat.ltb k n') &&
-                 mat_eqb back M && line_reducible true m' n' M' isr k) then 400
+                 mat_eqb back M && line_reducible true m' n' M' isr k && is_ternary M') then 400
         else if forallb (fun i => same_at v v' i i) [V_TU; V_REG; V_GRA; V_COG; V_NET; V_CONET; V_SPT; V_BAL] &&
                 (if line_reducible false m' n' M' isr k then same_at v v' V_SPB V_SPB else true) then 0 else 404
       | _ => 400
